@@ -207,3 +207,81 @@ Example C20_nonvacuous_fail :
   (exists k, cb_program [(1, hw_stream ex_b1); (2, hw_stream [HEdge 1 1 true])] = Err k) /\   (* no counter-0 marker *)
   (exists k, cb_program [(4, [0; 0; 0x80; 0xFF])] = Err k).                            (* first marker: top bit set *)
 Proof. repeat split; eexists; vm_compute; reflexivity. Qed.
+
+(* ---------- single faults of the marker sequence: never a WRONG non-empty time ---------- *)
+From AG Require Import Apps.CbFaults Apps.CbFaults_proofs.
+(* Fault model (Apps/CbFaults.v).  l1 ++ mid ++ l2 is a well-formed hardware event sequence; the contiguous stretch
+   `mid` of the FIFO (nothing, one marker, one edge, several events) is replaced by an ARBITRARY sequence X of valid
+   4-byte words - markers with any counter and top bit, timestamps (word_ok) -, the rest is untouched:
+       stream = hw_stream l1 ++ words X ++ hw_stream l2,   cut into banks in any way (fault_sound quantifies pieces).
+   Then the run fails as a whole (no CSV), or the rows correspond one to one, in order, to the timestamp words after
+   the first counter-0 marker (`owed`), with the right board / channel / edge, and the row of EVERY SURVIVING EDGE
+   (an edge of l1 or l2, absolute tick T) has time = None or time = Some (T - T mod 2): never another value.
+   Why: a non-empty time needs counters c, c+1 with different top bits around the timestamp; with one damaged stretch
+   one of the two markers around a surviving edge is original, which forces the other to be what the original was. *)
+Theorem C20_fault_burst_no_wrong_time : forall b l1 mid X l2,
+  hw_wf 0 (l1 ++ mid ++ l2) -> Forall word_ok X ->
+  forall pieces, (forall b', present b' pieces = (b' =? b)) ->
+    concat_of b pieces = hw_stream l1 ++ words_stream X ++ hw_stream l2 ->
+  (exists k, cb_program pieces = Err k) \/
+  (exists rows, cb_program pieces = Ok rows /\
+     Forall2 (fun (t : entry * option N) r =>
+                r_board r = b /\
+                match fst t with TS ch tr _ => r_channel r = ch /\ r_leading r = negb tr | MK _ _ => False end /\
+                forall T, snd t = Some T -> r_time r = None \/ r_time r = Some (T - T mod 2))
+             (owed false (hw_tagged l1 ++ junk X ++ hw_tagged l2)) rows).
+Proof. intros b l1 mid X l2 Hw HX pieces Hp Hc. exact (fault_program b l1 mid X l2 pieces Hw HX Hp Hc). Qed.
+Print Assumptions C20_fault_burst_no_wrong_time.
+
+(* the single marker faults of the property text, for marker m of a well-formed sequence l1 ++ HMarker m :: l2:
+   DROPPED; DUPLICATED (the FIFO holds the marker word twice in a row); CORRUPTED into any other valid marker word
+   (any counter c < 2^23, any top bit - including counters m+-1, m+-2 that are consistent with a later marker);
+   CORRUPTED into any valid timestamp word *)
+Theorem C20_single_marker_fault_no_wrong_time : forall b l1 m l2, hw_wf 0 (l1 ++ HMarker m :: l2) ->
+  fault_sound b (hw_stream (l1 ++ l2)) (hw_tagged (l1 ++ l2)) /\
+  fault_sound b (hw_stream (l1 ++ HMarker m :: HMarker m :: l2)) (hw_tagged (l1 ++ HMarker m :: HMarker m :: l2)) /\
+  (forall (top : bool) c, c < 8388608 ->
+     fault_sound b (hw_stream l1 ++ le32 (255 * 16777216 + (if top then 8388608 else 0) + c) ++ hw_stream l2)
+                   (hw_tagged l1 ++ (MK top c, None) :: hw_tagged l2)) /\
+  (forall ch (tr : bool) ts, ch < 59 -> ts < 16777216 -> ts mod 2 = 0 ->
+     fault_sound b (hw_stream l1 ++ le32 ((128 + ch) * 16777216 + ts + (if tr then 1 else 0)) ++ hw_stream l2)
+                   (hw_tagged l1 ++ (TS ch tr ts, None) :: hw_tagged l2)).
+Proof. exact fault_single_marker. Qed.
+Print Assumptions C20_single_marker_fault_no_wrong_time.
+
+(* a marker word where the hardware writes none - in particular a second copy of a marker ANYWHERE in the stream
+   (next to the first, later, earlier), with any counter *)
+Theorem C20_spurious_marker_no_wrong_time : forall b l1 l2 c, hw_wf 0 (l1 ++ l2) ->
+  fault_sound b (hw_stream (l1 ++ HMarker c :: l2)) (hw_tagged (l1 ++ HMarker c :: l2)).
+Proof. exact fault_spurious_marker. Qed.
+Print Assumptions C20_spurious_marker_no_wrong_time.
+
+(* non-vacuity: marker 1 of a five-marker sequence dropped / duplicated / turned into the word of marker 3; the rows
+   of the damaged streams (the same the REAL binary prints: corpus/C20/marker_faults.case) *)
+Definition ex_f1 : list hw_event := [HEdge 100 3 false; HMarker 0; HEdge 8388609 5 false; HEdge 8388607 6 true].
+Definition ex_f2 : list hw_event :=
+  [HEdge 16777300 8 true; HMarker 2; HEdge 25165900 9 false; HMarker 3; HEdge 33554500 10 true; HMarker 4].
+Example C20_nonvacuous_faults :
+  hw_wfb (ex_f1 ++ HMarker 1 :: ex_f2) = true /\
+  cb_program [(2, hw_stream (ex_f1 ++ ex_f2))] =
+    Ok [Row 2 5 true None; Row 2 6 false None; Row 2 8 false None; Row 2 9 true (Some 25165900);
+        Row 2 10 false (Some 33554500)] /\
+  cb_program [(2, hw_stream (ex_f1 ++ HMarker 1 :: HMarker 1 :: ex_f2))] =
+    Ok [Row 2 5 true (Some 8388608); Row 2 6 false None; Row 2 8 false (Some 16777300); Row 2 9 true (Some 25165900);
+        Row 2 10 false (Some 33554500)] /\
+  cb_program [(2, hw_stream ex_f1 ++ le32 (255 * 16777216 + 8388608 + 3) ++ hw_stream ex_f2)] =
+    Ok [Row 2 5 true None; Row 2 6 false None; Row 2 8 false None; Row 2 9 true (Some 25165900);
+        Row 2 10 false (Some 33554500)] /\
+  owed false (hw_tagged (ex_f1 ++ ex_f2)) =
+    [(TS 5 false 8388608, Some 8388609); (TS 6 true 8388606, Some 8388607); (TS 8 true 84, Some 16777300);
+     (TS 9 false 8388684, Some 25165900); (TS 10 true 68, Some 33554500)].
+Proof. vm_compute. repeat split; reflexivity. Qed.
+(* sharpness: the statement is about ONE damaged stretch.  TWO corrupted markers on either side of an edge (markers 1
+   and 2 turned into the words of markers 3 and 4) do produce a wrong time: the edge at tick 16777300 is printed as
+   33554516 (by the model and by the real binary alike); this is outside "every single fault" *)
+Example C20_two_faults_wrong_time :
+  cb_program [(2, hw_stream [HMarker 0; HEdge 8388700 1 false] ++ le32 (255 * 16777216 + 8388608 + 3) ++
+                  hw_stream [HEdge 16777300 8 true] ++ le32 (255 * 16777216 + 4) ++
+                  hw_stream [HEdge 25165900 9 false; HMarker 3])] =
+    Ok [Row 2 1 true None; Row 2 8 false (Some 33554516); Row 2 9 true None].
+Proof. vm_compute. reflexivity. Qed.
